@@ -277,7 +277,14 @@ ARGS = [[], [('i', 1)], [('i', 1), ('i', 2)], [('i', 2), ('s', 'x')], [('s', 'x'
 
 # signature shapes of responder callables -> how many of (msg, time, addr, port) they must receive
 CAP = {'full': 4, 'n3': 3, 'n2': 2, 'n1': 1, 'n0': 0, 'posonly': 4, 'posonly2': 2, 'varargs': 4, 'mixed': 4, 'kwonly': 2,
-       'kwargs': 1, 'defaults': 4, 'partial': 2, 'object': 3, 'method': 1, 'builtin': 1}
+       'kwargs': 1, 'defaults': 4, 'partial': 2, 'object': 3, 'method': 1, 'builtin': 1, 'partialv': 4}
+# families of callables that share ONE Python class but differ in arity (functools.partial, bound methods, instances of one
+# callable class): several members of a family are mixed in one history, in both orders
+FAMILIES = {'partial': ['partial%d' % k for k in range(5)], 'method': ['method%d' % k for k in range(5)],
+            'object': ['object%d' % k for k in range(5)]}
+for _fam in FAMILIES.values():
+    for _k, _sh in enumerate(_fam):
+        CAP[_sh] = _k
 KW_SHAPES = ('kwonly', 'kwargs')
 
 
@@ -291,6 +298,7 @@ def gen_history(rng, maxops):
     only = None if kind == 'plain' else (rng.random() < 0.5)
     shared_tags = []
     has_builtin = [False]
+    fam_pick = FAMILIES[rng.choice(sorted(FAMILIES))]        # this history mixes members of one family
 
     def new_fn():
         nonlocal tag
@@ -304,7 +312,7 @@ def gen_history(rng, maxops):
         f = {'tag': tag - 1, 'raises': kind == 'raise' and rng.random() < 0.35}
         if not f['raises'] and rng.random() < 0.35:
             shapes = [x for x in CAP if x != 'full' and (x != 'builtin' or not has_builtin[0])]
-            f['shape'] = rng.choice(shapes)
+            f['shape'] = rng.choice(fam_pick) if rng.random() < 0.5 else rng.choice(shapes)
             if f['shape'] == 'builtin':
                 has_builtin[0] = True
         return f
@@ -402,6 +410,17 @@ def shape_histories(rng):
         ops += [['set_func', k, {'tag': 100 + k, 'shape': sh}] for k, sh in enumerate(order2)]
         ops += [['dgram', enc_msg('/a', [('i', 1)])[0].hex(), SENDERS[0], 0]]
         hs.append(ops)
+    # same-class families, ascending and descending arity, then interleaved families
+    for fam in FAMILIES.values():
+        for order in (fam, fam[::-1]):
+            ops = [['create', '/a', False, None, None, None, {'tag': k, 'shape': sh}] for k, sh in enumerate(order)]
+            ops += [['dgram', enc_msg('/a', [('i', 1)])[0].hex(), SENDERS[0], 0], ['dgram', enc_msg('/a', [])[0].hex(), SENDERS[1], 1]]
+            hs.append(ops)
+    mixed = [sh for fam in FAMILIES.values() for sh in fam]
+    rng.shuffle(mixed)
+    ops = [['create', '/a', True, None, None, None, {'tag': k, 'shape': sh}] for k, sh in enumerate(mixed)]
+    ops += [['dgram', enc_msg('/?', [('i', 1)])[0].hex(), SENDERS[0], 0]]
+    hs.append(ops)
     return hs
 
 
@@ -873,7 +892,7 @@ def free_port_base(rng):
 
 def corr_rt(ctx, c):
     rng = ctx.rng
-    hists = list(FIXED_HISTORIES) + matrix_histories(rng) + shape_histories(rng) + [gen_history(rng, rng.choice([8, 14, 22])) for _ in range(ctx.n(280, 3000))]
+    hists = list(FIXED_HISTORIES) + matrix_histories(rng) + shape_histories(rng) + [gen_history(rng, rng.choice([8, 14, 22])) for _ in range(ctx.n(230, 3000))]
     corpus = os.path.join(fw.VERIF, 'corpus', 'C18_histories.json')
     if os.path.exists(corpus):
         hists = json.load(open(corpus)) + hists
@@ -1131,6 +1150,17 @@ def search(ctx, failures):
             if o['out'] and not c18_ref.bundle_structure_ok(data) and 'C18:F4-oversized-bundle-size' not in seen:
                 extra.append(Failure('search', 'datagram %s has a bundle element size that is negative or reaches past the end, yet %d message(s) were dispatched' % (
                     dc['hex'], len(o['out'])), found_input=True, theorem='malformed_dispatches_nothing', replay=rp))
+            elif not o['hang'] and not o['raised']:
+                # a datagram the strict reference reader can read: addresses and times of the delivered messages must be its own
+                try:
+                    want = [[list(a.encode('utf-8')), ['now'] if tt in (None, 1) else ['tag', str(int(float(tt)))]] for tt, a, _ in c18_ref.read_packet(data)]
+                except (c18_ref.Bad, UnicodeDecodeError):
+                    want = None
+                got = [[x[0][0], x[1]] for x in o['out']]
+                if want is not None and got != want:
+                    extra.append(Failure('search', 'datagram %s: a well-formed datagram; delivered (address, time) %s, its bundles say %s '
+                                         '(each message carries the timetag of its own enclosing bundle, in timetag order)' % (dc['hex'], json.dumps(got), json.dumps(want)),
+                                         found_input=True, theorem='dispatch_exact (time passed unchanged) / parse model', replay=rp))
             elif o['raised']:
                 extra.append(Failure('search', 'datagram %s: %s raised into the receiver' % (dc['hex'], o['raised']), found_input=True,
                                      theorem='receiver_survives', replay=rp))
